@@ -36,7 +36,7 @@ def run(ctx):
     channel_stream(ctx, cirq, checks, n)
     circuit_stream(ctx, cirq, checks, 90 * n)
     noise_stream(ctx, cirq, checks, 40 * n)
-    mux_noise_stream(ctx, cirq, checks, 30 * n)
+    mux_noise_stream(ctx, cirq, checks, 40 * n)
     evaluate(ctx, checks)
 
 
@@ -280,12 +280,20 @@ def mux_noise_stream(ctx, cirq, checks, n):
                 c.append(rng.choice([cirq.CNOT, cirq.CZ])(qs[a], qs[b]))
             else:
                 c.append(rng.choice([cirq.H, cirq.X ** 0.5, cirq.Y ** 0.25, cirq.rx(0.7)])(qs[rng.randrange(k)]))
-        m = rng.randrange(k)
-        c.append(cirq.measure(qs[m], key='a'))
-        t = rng.randrange(k)
-        c.append(rng.choice([cirq.X, cirq.H, cirq.Y ** 0.5])(qs[t]).with_classical_controls('a'))
-        if rng.random() < 0.5:
-            c.append(rng.choice([cirq.H, cirq.T])(qs[rng.randrange(k)]))
+        form = ['classical-control', 'classical-control', 'joint-measurement', 'no-measurement'][i % 4]
+        if form == 'classical-control':
+            m = rng.randrange(k)
+            c.append(cirq.measure(qs[m], key='a'))
+            t = rng.randrange(k)
+            c.append(rng.choice([cirq.X, cirq.H, cirq.Y ** 0.5])(qs[t]).with_classical_controls('a'))
+            if rng.random() < 0.5:
+                c.append(rng.choice([cirq.H, cirq.T])(qs[rng.randrange(k)]))
+        elif form == 'joint-measurement':
+            # one key over several qubits (dephasing spreads it over several moments), optionally a second key
+            ws = rng.sample(range(k), rng.randint(2, k))
+            c.append(cirq.measure(*[qs[w] for w in ws], key='a', invert_mask=tuple(rng.random() < 0.3 for _ in ws)))
+            if rng.random() < 0.4:
+                c.append(cirq.measure(qs[rng.randrange(k)], key='b'))
         noise_gate = rng.choice([cirq.depolarize(0.1), cirq.bit_flip(0.2), cirq.amplitude_damp(0.3), cirq.phase_damp(0.25)])
         nm = cirq.ConstantQubitNoiseModel(noise_gate)
         desc = str(c).replace('\n', ' | ')[:300]
@@ -305,7 +313,7 @@ def mux_noise_stream(ctx, cirq, checks, n):
         checks.append(('noise-model:final_density_matrix',
                        f'fcl_close {TOL} (dexec_rho FOps {gates.nlist([2] * k)} {mops} {gates.fvec(np.eye(dim)[0])}) {gates.fvec(rho.reshape(-1))}',
                        f'cirq.final_density_matrix(noise={noise_gate!r}) differs from the averaged state of the circuit the noise model produces on {desc}',
-                       dict(signature='noise-mux:classical-control', circuit=repr(c), noise=repr(noise_gate))))
+                       dict(signature=f'noise-mux:{form}', circuit=repr(c), noise=repr(noise_gate))))
 
 
 def evaluate(ctx, checks):
